@@ -531,7 +531,6 @@ Section Builtins.
     Hypothesis Hps_base : psid_of env pBase = 1%nat.
     Hypothesis Hasg_rec : assign_of env pRec = [].
     Hypothesis Hasg_base : assign_of env pBase = [].
-    Hypothesis Hneq : pRec <> pBase.
 
     (* the element subtrees of a derivation of H, left to right *)
     Fixpoint plus_elems (t : tree) : list tree :=
@@ -719,3 +718,37 @@ Section Builtins.
     Qed.
   End Opt.
 End Builtins.
+
+(* ------------------------------------------------------------------------- *)
+(* 5. GLR route: call_actions over forest[0] (Tree proxies decode the forest,   *)
+(*    Model/Forest.v) when the forest has a single tree                         *)
+Definition glr_call_actions g env uact utact (F : forest) : option res :=
+  option_map (call_actions g env uact utact) (tree_at F 0).
+
+Theorem glr_single g env uact utact F t :
+  forest_wf F = true -> F <> [] -> root_count F = 1 ->
+  In t (root_trees F) ->
+  glr_call_actions g env uact utact F = Some (call_actions g env uact utact t).
+Proof.
+  intros Hwf Hne Hc Hin. unfold glr_call_actions.
+  rewrite (index_correct F 0 Hwf Hne) by lia.
+  pose proof (count_correct F Hwf Hne) as Hlen. rewrite Hc in Hlen.
+  destruct (root_trees F) as [|t0 [|t1 r]]; cbn in Hlen; try lia.
+  destruct Hin as [Ht|[]]. subst t0. reflexivity.
+Qed.
+
+Corollary glr_single_routes g env uact utact F tb skipws next_token stop_id consume_input
+          in_layout fuel pos t rp lay tr :
+  forest_wf F = true -> F <> [] -> root_count F = 1 -> In t (root_trees F) ->
+  lr_parse g tb skipws next_token stop_id consume_input in_layout fuel pos = LROk t rp lay tr ->
+  exists r rg,
+    parse_actions g env uact utact tb skipws next_token stop_id consume_input in_layout fuel pos
+    = AFOk r rp lay tr /\
+    glr_call_actions g env uact utact F = Some rg /\
+    rg = call_actions g env uact utact t /\ res_equiv r rg.
+Proof.
+  intros Hwf Hne Hc Hin Hlr.
+  destruct (routes_equal_accept g env uact utact _ _ _ _ _ _ _ _ _ _ _ _ Hlr) as (r & Hr & Heq & _).
+  exists r, (call_actions g env uact utact t). split; [exact Hr|].
+  split; [apply glr_single; assumption|]. split; [reflexivity|exact Heq].
+Qed.
